@@ -76,7 +76,7 @@ SPECS = {
   "bounds": {"misuse_menu": 48, "file": "harness/world.hpp", "indices/offsets": "any 64-bit value", "positions": "any double"},
   "outside": ["'all finite programs': only the bounded programs of the harnesses; functions no harness reaches are not covered (functions_encoded lists what was)", "libhdf5 internals (modelled)", "allocation failure", "threads"],
   "assumptions": ["libhdf5 replaced by h5model", "operator new never fails"],
-  "harnesses": [{"file": "C16_misuse.cpp", "entries": [{"entry": "vh_c16_misuse", "label": "vh_c16_misuse.op%d" % o, "fix": {"op": o}} for o in range(48)]
+  "harnesses": [{"file": "C16_misuse.cpp", "entries": [{"entry": "vh_c16_misuse", "label": "vh_c16_misuse.op%d" % o, "fix": {"op": o}} for o in range(55)]
        + [{"entry": "vh_c16_positions", "label": "vh_c16_positions.d%d" % d, "fix": {"dim": d}} for d in range(4)]}]},
  "C01": {
   "explanation": "Full stack on the HDF5 model for 10 numeric element types plus Bool and String: bounded histories of hyperslab writes (offset/count inside, touching and crossing the edge), appends along each axis, extent changes (grow/shrink) and sub-region reads with symbolic element values, compared with a dense reference array after every step and after reopen; reads as other numeric types; calibration polynomial/origin in the exact regime (integer-valued doubles) with raw reads unaffected; kernel checks of applyPolynomial (arbitrary doubles, order-independent facts) and guessChunking.",
@@ -112,14 +112,15 @@ SPECS = {
   "assumptions": ["libhdf5 replaced by h5model", "unit grammar replaced by an equivalent hand-written matcher"],
   "harnesses": [{"file": "C13_dims.cpp", "defines": {"quick": ["-DVH_STEPS=2"], "thorough": ["-DVH_STEPS=3"]},
      "entries": [{"entry": "vh_c13_append", "label": "vh_c13_append.k%d.k%d" % (a, b), "fix": {"kind#0": a, "kind#1": b}} for a in range(5) for b in range(5)]
-               + [{"entry": "vh_c13_modify"}, {"entry": "vh_c13_alias"}]}]},
+               + [{"entry": "vh_c13_modify"}, {"entry": "vh_c13_alias"}]
+               + [{"entry": "vh_c13_alias_history", "label": "vh_c13_alias_history.o%d" % o, "fix": {"op#0": o}} for o in range(4)]}]},
  "C11": {
   "technique": "symbolic execution of the real code's LLVM IR (nixsym) over a finite family of histories: every choice is forked and executed on the full stack, the engine's memory-safety queries go to z3; the property data here is concrete, so the solver's share is the feasibility and safety queries",
   "explanation": "Full stack on the HDF5 model's identifier table: with handles to every entity kind (and copies, a dimension, a DataView) alive or dropped, close() must leave zero open HDF5 identifiers of the file, isOpen() false, a second close a no-op; each of 16 uses of a stale handle must throw without touching or re-opening the file; the path can be truncated and reused afterwards.",
-  "bounds": {"live_handles": "all of harness/world.hpp + dimension + DataView, or none; 3 or 70 arrays plus half as many sections held in vectors", "stale_uses": 16},
+  "bounds": {"live_handles": "all of harness/world.hpp + dimension + DataView, or none; 3 or 70 arrays plus half as many sections held in vectors", "stale_uses": 16, "sessions": "one, or a writer and a reader on the same path closed in either order"},
   "outside": ["completeness of bytes on disk after flush/close, reopen after SIGKILL: crash points inside libhdf5/OS cannot be encoded (not applicable part)", "other processes"],
   "assumptions": ["libhdf5 replaced by h5model (identifier reference counts, weak file close degree)"],
-  "harnesses": [{"file": "C11_close.cpp", "entries": [{"entry": "vh_c11_close", "label": "vh_c11_close.d%d" % d, "fix": {"drop": d}} for d in range(2)] + [{"entry": "vh_c11_many", "label": "vh_c11_many.m%d" % m, "fix": {"many": m}} for m in range(2)]}]},
+  "harnesses": [{"file": "C11_close.cpp", "entries": [{"entry": "vh_c11_close", "label": "vh_c11_close.d%d" % d, "fix": {"drop": d}} for d in range(2)] + [{"entry": "vh_c11_many", "label": "vh_c11_many.m%d" % m, "fix": {"many": m}} for m in range(2)] + [{"entry": "vh_c11_two_sessions"}]}]},
  "C12": {
   "technique": "symbolic execution of the real code's LLVM IR (nixsym) with z3; dependence of ids on the entropy source decided as a differential over fixed draws (symbolic draw: no verdict within budget)",
   "explanation": "K: the real util::createId (boost mt19937 seeded from time(), basic_random_generator, uuids::to_string) executed in the engine: first three ids well-formed version-4 UUIDs and distinct. S: in the world file every entity id and the file id is well formed; across 17 operations (re-create by name, modify, replace, delete+create, reopen) no surviving entity's id changes, new entities get fresh ids, forceId changes only the file id.",
@@ -146,7 +147,7 @@ SPECS = {
   "bounds": {"victims": 22, "ways": ["name", "id", "handle"], "graph": "harness/world.hpp (one target linked from up to 3 holders; source/section subtrees of depth 2)"},
   "outside": ["other link graphs", "links created after a reopen", "data-frame dimensions as holders"],
   "assumptions": ["libhdf5 replaced by h5model (hard-link counts, H5Iget_name semantics as validated by nix's test-suite)"],
-  "harnesses": [{"file": "C04_delete.cpp", "entries": [{"entry": "vh_c04_delete", "label": "vh_c04_delete.v%d" % v, "fix": {"victim": v}} for v in range(22)]}]},
+  "harnesses": [{"file": "C04_delete.cpp", "entries": [{"entry": "vh_c04_delete", "label": "vh_c04_delete.v%d" % v, "fix": {"victim": v}} for v in range(23)]}]},
  "C08": {
   "technique": "symbolic execution of the real code's LLVM IR (nixsym) over a finite family of histories: every choice is forked and executed on the full stack, the engine's memory-safety queries go to z3; the property data here is concrete, so the solver's share is the feasibility and safety queries",
   "explanation": "Full stack on the HDF5 model: on a fully linked file one call from a menu of 51 calls the API must reject (each class of invalid argument the property names) is attempted; if it throws, the complete observation of the file (every public getter, data included) must equal the observation taken before the call, also after close+reopen.",
@@ -164,14 +165,15 @@ SPECS = {
      "entries": [{"entry": e, "label": "%s.op%d" % (e, o), "fix": {"op#0": o}} for e in ("vh_c02_reopen_ro", "vh_c02_reopen_rw") for o in range(43)]}]},
  "C03": {
   "explanation": "Full stack (front-end + backend/hdf5 + h5x) on the HDF5 model: bounded create/delete histories per container kind, checked after every step and after close+reopen against a reference list in creation order.",
-  "bounds": {"quick": {"history_steps": 3, "names": ["a", "b", "UUID-shaped", "", "a/b", "1 symbolic char in {a,b,c,/}", "(thorough: also 'A', 'a ', '..')"], "containers": "11 + 2 link containers (tag references, group members)"},
+  "bounds": {"quick": {"history_steps": 3, "names": ["a", "b", "UUID-shaped", "", "a/b", "1 symbolic char in {a,b,c,/}", "(thorough: also 'A', 'a ', '..')"], "containers": "11 + 3 link containers (tag references, group members, entity sources over nested sources)"},
              "thorough": {"history_steps": 4}},
-  "outside": ["names longer than the candidates / non-ASCII UTF-8", "HDF5's own creation-order index (modelled)", "features as a container (no names; covered by C04/C02 harnesses)", "multi-tag references and the other member kinds of groups (same code paths as tag references / group data arrays)", "sources attached to an entity (that API is id-based: hasSource(id), addSource(id))"],
+  "outside": ["names longer than the candidates / non-ASCII UTF-8", "HDF5's own creation-order index (modelled)", "features as a container (no names; covered by C04/C02 harnesses)", "multi-tag references and the other member kinds of groups (same code paths as tag references / group data arrays)", "names of sources attached to an entity (that API is id- and handle-based; decided: count/index/id/has/enumeration over nested sources incl. deletion of an ancestor, 3 steps)"],
   "assumptions": ["libhdf5 replaced by h5model", "createId replaced by a counter-based UUID generator (ids unique by construction)"],
   "harnesses": [{"file": "C03_names.cpp", "defines": {"quick": ["-DVH_STEPS=3", "-DVH_NAMES=6"], "thorough": ["-DVH_STEPS=4", "-DVH_NAMES=9"]},
      "entries": [{"entry": e} for e in ("vh_c03_blocks", "vh_c03_file_sections", "vh_c03_sub_sections", "vh_c03_properties", "vh_c03_block_sources", "vh_c03_sub_sources",
                                          "vh_c03_data_arrays", "vh_c03_tags", "vh_c03_multi_tags", "vh_c03_groups", "vh_c03_data_frames",
-                                         "vh_c03_tag_references", "vh_c03_group_members")]}]},
+                                         "vh_c03_tag_references", "vh_c03_group_members")]
+               + [{"entry": "vh_c03_nested_entity_sources", "label": "vh_c03_nested_entity_sources.o%d" % o, "fix": {"op#0": o}} for o in range(6)]}]},
  "C10": {
   "explanation": "K: FormatVersion operators with six/nine symbolic 32-bit ints (complete over all 2^96 pairs). S: real File::open -> FileHDF5::FileHDF5 -> checkHeader on the HDF5 model; the file's header (format string, version triple, id) is symbolic.",
   "bounds": {"version_components": "full 32-bit range, symbolic", "modes": ["ReadOnly", "ReadWrite"], "force": [False, True], "format": ["nix", "other", "missing"], "version/id attribute": "present or missing"},
